@@ -12,7 +12,7 @@ Theorem conn_setters_clear_eq_own_ctor : forall (A D : Type) (cast : D -> A -> A
   forall (ds : list D) (shp : list nat) (dt : T RN) (delay : option (T RN)) 
     (b : Z) (ip : bool) (c0 : conn RN) (ops : list (conn_op RN)),
   conn_ctor RN zeroA ds shp dt delay b ip = Some c0 ->
-  forallb (fun o : conn_op RN => negb (is_syn_op RN o)) ops = true ->
+  forallb (dt_batch_op RN) ops = true ->
   let c := fold_left (conn_apply RN cast zeroA shp) ops c0 in
   exists cf : conn RN,
     conn_ctor RN zeroA ds shp (conn_dt RN c) delay (conn_batch RN c) ip = Some cf /\
